@@ -8,6 +8,14 @@
 //       n draws of sampleUniform / sampleUniformNear / sampleGaussian from allocDefaultStateSampler()
 //       (or the SubspaceStateSampler of component k), satisfiesBounds of every output
 //       -> `n=<n> bad=<k> first=<state|->`                                            (implementation only)
+//   rebound <u|n|g> <d|sub <k>|wrapcmp|vss|scoped> <n> <dist> <stages> (<space_i> <centre_i>)*stages
+//       all space_i have the same structure and differ in their bounds only.  The space object is built from space_1
+//       and the sampler object(s) are allocated ONCE, under the bounds of stage 1; for every later stage the bounds of
+//       the SAME space object are changed (RealVector / Time / Discrete setBounds, also inside SE2/SE3, compounds,
+//       wrappers) and n draws of the OLD sampler object are judged against the CURRENT bounds (satisfiesBounds now).
+//       `vss`: a UniformValidStateSampler (all-valid checker) holding its inner sampler from stage 1; `scoped`:
+//       ScopedState::random() (caches its sampler)
+//       -> `stages=<k> n=<n> bad=<b_1,…,b_k> first=<stage>:<state>|-`                 (implementation only)
 //   vs <uniform|gaussian|obstacle|bridge|maxclear|minclear> <s|n> <attempts> <improve> <clearance> <nd> <dim>
 //      <ns> <sample>*ns <na> (<valid> <clearance>)*na
 //       valid-state sampler over a SCRIPTED inner StateSampler and a scripted, recording StateValidityChecker
@@ -19,6 +27,7 @@
 //       (nearLast: the returned state itself was never checked but is equalStates() to one answered `true`)
 #include "common/spaces.h"
 #include <ompl/base/SpaceInformation.h>
+#include <ompl/base/ScopedState.h>
 #include <ompl/base/StateSampler.h>
 #include <ompl/base/StateValidityChecker.h>
 #include <ompl/base/DiscreteMotionValidator.h>
@@ -268,6 +277,65 @@ private:
     unsigned permille_;
 };
 
+// copy the bound settings of `src` (a freshly parsed space of the same structure) onto the live space `dst`
+static void applyBounds(ob::StateSpace *dst, const ob::StateSpace *src)
+{
+    if (auto *w = dynamic_cast<ob::WrapperStateSpace *>(dst))
+    {
+        auto *ws = dynamic_cast<const ob::WrapperStateSpace *>(src);
+        if (!ws)
+            throw vp::ParseError("structure");
+        applyBounds(w->getSpace().get(), ws->getSpace().get());
+        return;
+    }
+    if (auto *c = dynamic_cast<ob::CompoundStateSpace *>(dst))
+    {
+        auto *cs = dynamic_cast<const ob::CompoundStateSpace *>(src);
+        if (!cs || cs->getSubspaceCount() != c->getSubspaceCount())
+            throw vp::ParseError("structure");
+        for (unsigned j = 0; j < c->getSubspaceCount(); ++j)
+            applyBounds(c->getSubspace(j).get(), cs->getSubspace(j).get());
+        return;
+    }
+    if (auto *r = dynamic_cast<ob::RealVectorStateSpace *>(dst))
+    {
+        auto *rs = dynamic_cast<const ob::RealVectorStateSpace *>(src);
+        if (!rs || rs->getDimension() != r->getDimension())
+            throw vp::ParseError("structure");
+        const ob::RealVectorBounds &b = rs->getBounds();
+        bool ok = true;
+        for (unsigned j = 0; j < r->getDimension(); ++j)
+            if (!(b.low[j] < b.high[j]))
+                ok = false;
+        if (ok)
+            r->setBounds(b);
+        else
+            const_cast<ob::RealVectorBounds &>(r->getBounds()) = b;   // degenerate: as parseSpace does
+        return;
+    }
+    if (auto *t = dynamic_cast<ob::TimeStateSpace *>(dst))
+    {
+        auto *ts = dynamic_cast<const ob::TimeStateSpace *>(src);
+        if (!ts || ts->isBounded() != t->isBounded())
+            throw vp::ParseError("structure");
+        if (ts->isBounded())
+            t->setBounds(ts->getMinTimeBound(), ts->getMaxTimeBound());
+        return;
+    }
+    if (auto *d = dynamic_cast<ob::DiscreteStateSpace *>(dst))
+    {
+        auto *ds = dynamic_cast<const ob::DiscreteStateSpace *>(src);
+        if (!ds)
+            throw vp::ParseError("structure");
+        d->setBounds(ds->getLowerBound(), ds->getUpperBound());
+        return;
+    }
+    if ((dynamic_cast<ob::SO2StateSpace *>(dst) && dynamic_cast<const ob::SO2StateSpace *>(src)) ||
+        (dynamic_cast<ob::SO3StateSpace *>(dst) && dynamic_cast<const ob::SO3StateSpace *>(src)))
+        return;
+    throw vp::ParseError("structure");
+}
+
 int main()
 {
     ompl::msg::setLogLevel(ompl::msg::LOG_NONE);
@@ -375,6 +443,146 @@ int main()
                 sp->freeState(st);
                 sp->freeState(centre);
                 std::cout << "n=" << n << " bad=" << bad << " first=" << first << "\n";
+            }
+            else if (op == "rebound")
+            {
+                if (t.size() < 7)
+                    throw vp::ParseError("rebound");
+                std::string kind = t[i++];
+                std::string which = t[i++];
+                long sub = -1;
+                if (which == "sub")
+                    sub = (long)vp::needN(t, i);
+                else if (which != "d" && which != "vss" && which != "scoped" && which != "wrapcmp")
+                    throw vp::ParseError("which");
+                if (kind != "u" && kind != "n" && kind != "g")
+                    throw vp::ParseError("kind");
+                unsigned long n = vp::needN(t, i);
+                double dist = vp::needF(t, i);
+                unsigned long stages = vp::needN(t, i);
+                if (stages < 1)
+                    throw vp::ParseError("stages");
+                // parse everything first (a malformed line must not leave half-run output)
+                std::vector<ob::StateSpacePtr> sps;
+                std::vector<ob::State *> centres;
+                struct Cleanup
+                {
+                    std::vector<ob::StateSpacePtr> &sps;
+                    std::vector<ob::State *> &centres;
+                    ~Cleanup()
+                    {
+                        for (size_t k = 0; k < centres.size(); ++k)
+                            sps[k]->freeState(centres[k]);
+                    }
+                } cleanup{sps, centres};
+                const size_t sp1Start = i;
+                for (unsigned long k = 0; k < stages; ++k)
+                {
+                    auto spk = vp::parseSpace(t, i);
+                    sps.push_back(spk);
+                    ob::State *c = spk->allocState();
+                    centres.push_back(c);
+                    vp::parseStateInto(spk.get(), c, t, i);
+                }
+                if (i != t.size())
+                    throw vp::ParseError("trailing");
+                {
+                    // structure check on a throw-away copy of stage 1, before anything runs
+                    size_t j = sp1Start;
+                    auto probe = vp::parseSpace(t, j);
+                    for (unsigned long k = 1; k < stages; ++k)
+                        applyBounds(probe.get(), sps[k].get());
+                }
+                // the live space object: built from stage 1, its bounds are changed in place afterwards
+                ob::StateSpacePtr sp;
+                {
+                    size_t j = sp1Start;
+                    sp = vp::parseSpace(t, j);
+                }
+                ob::StateSamplerPtr sampler;
+                ob::SpaceInformationPtr si;
+                ob::ValidStateSamplerPtr vss;
+                std::unique_ptr<ob::ScopedState<>> scoped;
+                ob::State *st = sp->allocState();
+                if (which == "d")
+                    sampler = sp->allocDefaultStateSampler();
+                else if (which == "wrapcmp")
+                    sampler = sp->allocStateSampler();
+                else if (which == "sub")
+                {
+                    auto *c = dynamic_cast<ob::CompoundStateSpace *>(sp.get());
+                    if (!c || (unsigned long)sub >= c->getSubspaceCount())
+                    {
+                        sp->freeState(st);
+                        throw vp::ParseError("sub");
+                    }
+                    sampler = sp->allocSubspaceStateSampler(c->getSubspace((unsigned)sub));
+                }
+                else if (which == "vss")
+                {
+                    si = std::make_shared<ob::SpaceInformation>(sp);
+                    si->setStateValidityChecker(std::make_shared<ob::AllValidStateValidityChecker>(si));
+                    try
+                    {
+                        si->setup();
+                    }
+                    catch (...)
+                    {
+                        sp->freeState(st);
+                        throw;
+                    }
+                    vss = std::make_shared<ob::UniformValidStateSampler>(si.get());
+                }
+                else
+                    scoped = std::make_unique<ob::ScopedState<>>(sp);
+                std::string bads, first = "-";
+                for (unsigned long k = 0; k < stages; ++k)
+                {
+                    if (k > 0)
+                        applyBounds(sp.get(), sps[k].get());
+                    // the centre of this stage, as a state of the live space
+                    ob::State *centre = sp->allocState();
+                    {
+                        std::string txt = vp::showState(sps[k], centres[k]);
+                        auto ct = vp::tokens(txt);
+                        size_t ci = 0;
+                        vp::parseStateInto(sp.get(), centre, ct, ci);
+                    }
+                    sp->copyState(st, centre);   // (subspace samplers: the rest of the state is in the current bounds)
+                    unsigned long bad = 0;
+                    for (unsigned long q = 0; q < n; ++q)
+                    {
+                        const ob::State *out = st;
+                        if (scoped)
+                        {
+                            scoped->random();
+                            out = scoped->get();
+                        }
+                        else if (vss)
+                        {
+                            if (kind == "u")
+                                vss->sample(st);
+                            else
+                                vss->sampleNear(st, centre, dist);
+                        }
+                        else if (kind == "u")
+                            sampler->sampleUniform(st);
+                        else if (kind == "n")
+                            sampler->sampleUniformNear(st, centre, dist);
+                        else
+                            sampler->sampleGaussian(st, centre, dist);
+                        if (!sp->satisfiesBounds(out))
+                        {
+                            if (first == "-")
+                                first = std::to_string(k + 1) + ":" + vp::showState(sp, out);
+                            ++bad;
+                        }
+                    }
+                    sp->freeState(centre);
+                    bads += (k ? "," : "") + std::to_string(bad);
+                }
+                sp->freeState(st);
+                std::cout << "stages=" << stages << " n=" << n << " bad=" << bads << " first=" << first << "\n";
             }
             else if (op == "vs")
             {
